@@ -459,7 +459,10 @@ class CollisionArray:
         )
         interpolatedData = np.array(source.polynomialData.evaluate(gridPoints, (1, 2)))[
             ..., : targetGrid.N - 1, : targetGrid.N - 1
-        ].reshape(newShape)
+        ]
+        # evaluate() returns the evaluation points on the first axis, (points, a, b, j, k).
+        # Put them back behind the first particle index before splitting them into (pz, pp).
+        interpolatedData = np.moveaxis(interpolatedData, 0, 1).reshape(newShape)
 
         interpolatedPolynomial = Polynomial(
             interpolatedData,
